@@ -15,6 +15,11 @@ CLAIMED = {
     note="Trusted: Coq kernel + vm_compute; stdlib real axioms for the R statements; harness positional mapping of combined to component parameter names; components of a magnetic mixture are kept in the polarised state with a 1e-200 magnitude.",
     technique="Coq proof (list induction, permutation invariance) + vm_compute correspondence",
     design="DESIGN.md §3 C08"),
+ "C20": dict(
+    text="Coq theorems for every mapping and every parameter set (any subset of old names with any attributes and any other keys): the renaming is exactly the simultaneous substitution (C20_convert_pars_spec: no error case, values carried to the mapped name, renamed sources removed, other keys untouched, every result key is an input key or a table target); over the conversion tables regenerated from /repo on every run: targets pairwise distinct in every row, every target is a parameter of the current model or of the next table in the chain (stale rows listed in known_findings.json excepted), every returned model name is current. Tied to the code by running convert_model on every row x {empty, full, singletons, decorated, random subsets, 4.1 magnetic keys} x use_underscore x model_version against the executable Coq model (vm_compute) and a model-free oracle (no exception, name loads, keys exist, values routed across the version chain, SLD x1e6, defaults).",
+    note="Trusted: Coq kernel + vm_compute (theorems are axiom-free); table dumper harness/c20.py (imports /repo, prints Coq literals, uses the repo's own _get_translation_table for vector expansion); Python dict semantics; rows with hand conversions are covered by the oracle only.",
+    technique="Coq proof (association-list renaming = simultaneous substitution) + regenerated-table obligations by vm_compute + correspondence",
+    design="DESIGN.md §3 C20"),
 }
 NA_REASON = "check not built yet in this session (planned, see DESIGN.md §7)"
 
